@@ -164,7 +164,7 @@ def check_case(res: Res, p: dict, name: str, where: tuple[list, int], lay_seed: 
     if r.ok:
         res.violate("error-not-reported", f"injected {name} at {fname}:{line} but the program assembled", wit)
         return
-    etext = r.err_text if r.err_kind == "returned" else str(r.exc)
+    etext = r.err_text if r.err_kind == "returned" else __import__("vf.harness", fromlist=["_safe_str"])._safe_str(r.exc)
     span = 2 if kind == "node2" else 1
     if kind == "node2":
         kind = "node"
@@ -203,6 +203,33 @@ def check_case(res: Res, p: dict, name: str, where: tuple[list, int], lay_seed: 
         quoted = [ln for ln in etext.split("\n")[1:3]]
         res.violate("wrong-location", f"{name}: location {fname}:{line} is right but the quoted text is {quoted!r}, the line reads {want_text!r}", wit)
         return
+    if lay_seed % 7 == 0 and kind != "scan_eof" and span == 1:
+        # the same faulty source as the second text assembled by one Program object (a multi-file build that shares its symbols): the
+        # location is counted in the text that fails, not in what the object has seen before
+        from vf.harness import Scratch, new_program, run_program
+
+        prog2 = new_program(p.get("rom"))
+        warm = "*=0x008000\n" + "".join(f".db {i & 255}   ; row {i}\n" for i in range(lrng.choice([3, 17, 60, 200])))
+        with Scratch(files or {}):
+            run_program(prog2, warm, "warmup.s")
+            r2 = run_program(prog2, src, "t.s")
+        res.count("second_text_on_one_program")
+        from vf.harness import _safe_str
+
+        etext2 = r2.err_text if r2.err_kind == "returned" else _safe_str(r2.exc)
+        locs2 = [(m.group("file"), int(m.group("line")), int(m.group("col")) if m.group("col") is not None else None) for m in LOC_RE.finditer(etext2 or "")]
+        locs2 = [l for l in locs2 if l[0].endswith(".s")]
+        if r2.ok:
+            res.violate("error-not-reported", f"{name}: the faulty source assembles as the second text of one Program", dict(wit, second_text=True, warm=warm))
+            return
+        if locs2 and not [l for l in locs2 if l[0] == fname and line <= l[1] < line + span and col_ok(l[2])]:
+            got = locs2[0]
+            res.violate("wrong-location", f"{name} as the second text assembled by one Program: reported {got[0]}:{got[1]}" + (f":{got[2]}" if got[2] is not None else "") +
+                        f", the offending statement is at {fname}:{line} in {want_text!r}", dict(wit, second_text=True, warm=warm))
+            return
+        if not locs2 and (etext2.startswith("<unprintable") or r2.err_kind not in ("NodeError", "returned", "ScannerException", "ParserSyntaxError")):
+            res.violate("no-location", f"{name} as the second text assembled by one Program: the error carries no location ({r2.err_kind}: {etext2[:120]!r})", dict(wit, second_text=True, warm=warm))
+            return
     if lay_seed % 5 == 0 and kind != "scan_eof" and span == 1:
         # the same faulty source through the command line with -D definitions and through the file API: same file, line and column
         from vf.frontends import cli_inprocess, file_api
@@ -262,7 +289,7 @@ def replay(w: dict) -> Res:
     res = Res()
     r = assemble(w["src"], files=w.get("files") or None, rom=w.get("rom"))
     res.case(w["src"], True)
-    etext = r.err_text if r.err_kind == "returned" else str(r.exc)
+    etext = r.err_text if r.err_kind == "returned" else __import__("vf.harness", fromlist=["_safe_str"])._safe_str(r.exc)
     ok = (f"{w['file']}:{w['line']}" in etext) and not r.ok
     if not ok:
         res.violate("wrong-location", f"{w['fault']}: expected location {w['file']}:{w['line']}, error text {etext[:200]!r}", w)
